@@ -149,3 +149,24 @@ __CPROVER_assigns(verif_g_lineRef, verif_g_last, verif_g_curr)
 ;
 void h_estimatedCost(void) { void *self, *l, *a, *c; size_t K; w_estimatedCost(self, l, a, c, K); VERIF_CANARY; }
 #endif
+
+/* ------------------------------------------------------------------------------------------------
+ * fixConnectionPointVisibilityOnOutsideOfVisibilityGraph: every connection point among the events at the FIRST scan position and among
+ * those at the LAST scan position gets the extra visibility directions; nothing else is touched.  BOUNDED: up to 4 events. */
+#if defined(JOB_fixvis)
+void verif_setup(int i, _Bool has, double pos, unsigned vis); unsigned verif_vis(int i); void w_fixvis(size_t total, unsigned added);
+void h_fixvis(void)
+{
+  double pos[4]; unsigned before[4]; _Bool has[4]; size_t n; unsigned added;
+  __CPROVER_assume(n <= 4);
+  for (int i = 0; i < 4; ++i) { __CPROVER_assume(!IS_NAN(pos[i])); verif_setup(i, has[i], pos[i], before[i]); }
+  for (int i = 1; i < 4; ++i) if ((size_t)i < n) __CPROVER_assume(pos[i - 1] <= pos[i]);      /* events arrive sorted by position */
+  w_fixvis(n, added);
+  for (size_t i = 0; i < 4; ++i) if (i < n && has[i]) {
+    _Bool outer = pos[i] == pos[0] || pos[i] == pos[n - 1];
+    __CPROVER_assert(verif_vis(i) == (outer ? (before[i] | added) : before[i]),
+                     "SPEC a connection point gets the added visibility iff it sits at the first or the last scan position");
+  }
+  VERIF_CANARY;
+}
+#endif
